@@ -34,9 +34,27 @@ Definition ledger_step (c : cfg) (g : g11) (s : step) : g11 :=
                          | (ERemove s', AUnit false) => match lookup s' g with Some _ => set_key s' None g | None => g end
                          | _ => g end) (s_trace s) g.
 
+(* "on success the request is allowed with the merged result": when the check's own trace shows expired, refreshable
+   tokens, the refresh exchange with the stored refresh token answered by a valid body whose merged ID token validates
+   (against the login state read in this check), then the check must end in OK - unless the key lookup or the write of the
+   merged tokens failed *)
+Definition refresh_must_succeed (c : cfg) (db : tokdb) (s : step) : bool :=
+  match s_trace s with
+  | (EGetTok _, ATok (Some (Some t))) :: (EIdp q, AIdp (IdpBody b)) :: (EGetAuth _, AAuth (Some oa)) :: rest =>
+      if match tokens_expired c db (s_now s) t with Some true => true | _ => false end &&
+         negb (String.eqb (t_refresh t) "") && treq_eqb q (refresh_request c (t_refresh t)) && valid_refresh_tokens b &&
+         validated c db (t_id (merged_tokens db (s_now s) t b)) (nonce_of oa) false
+      then match rest with
+           | (EJwks, AJwks false) :: _ => true
+           | _ => is_allow (s_resp s) || existsb (fun ea => match ea with (ESetTok _ _, AUnit false) => true | _ => false end) rest
+           end
+      else true
+  | _ => true
+  end.
+
 Definition mon11 (c : cfg) (db : tokdb) (g : g11) (s : step) : g11 * bool :=
   (ledger_step c g s,
-   refresh_uses_latest c g s &&
+   refresh_uses_latest c g s && refresh_must_succeed c db s &&
    refresh_failure_shape c db (s_now s) (s_req s) (s_trace s) (s_resp s) &&
    mon_ok_justified c db (s_now s) (s_req s) (s_trace s) (s_resp s) &&
    settok_shape c db (s_now s) (s_req s) (s_trace s)).
